@@ -158,9 +158,12 @@ def check_schedule(run, sim, params_of, witness, stats):
 def scenario_client(exe, r, idx):
     """client node -> raw peers answering per plan"""
     # the session setters accept ACK_TIMEOUT >= 1 s, ACK_RANDOM_FACTOR >= 1, MAX_RETRANSMIT >= 1
-    at = r.choice([1000, 2000, 2000, 7300])
+    at = r.choice([1000, 2000, 2000, 7300, 2000, 7300, 60000, 255500, 256000, 300000, 1000000])
     arf = r.choice([1000, 1500, 3700])
     mr = r.choice([1, 2, 4, 4, 8])
+    if at >= 60000:
+        # slow links (the setter takes up to 65535 s): keep the run within a few virtual hours
+        mr = min(mr, 2)
     pin = r.choice([0, 255, None])
     nsess = r.choice([1, 1, 2, 3])
     nmsg = r.choice([1, 1, 2, 4])
@@ -358,7 +361,7 @@ def main(tier):
     run = common.Run("C06", tier, "exploration")
     run.rule = ("closed-world executions: (a) client -> raw peers with ACK/RST/never/wrong-mid/"
                 "duplicate-answer plans at the k-th transmission and delays 0, 1, mid-gap, "
-                "deadline-1/deadline/deadline+1, late; ACK_TIMEOUT x ACK_RANDOM_FACTOR x "
+                "deadline-1/deadline/deadline+1, late; ACK_TIMEOUT (1 s .. 1000 s) x ACK_RANDOM_FACTOR x "
                 "MAX_RETRANSMIT x jitter draw pinned 0/255/seeded; 1-3 sessions, up to 4 "
                 "messages sharing one send queue; both tie-break orders; (b) server separate CON "
                 "responses incl. answers from a stranger address; (c) every drop subset of the "
